@@ -299,6 +299,9 @@ func c05() []*Ob {
 					c.Site(fn.Pos(), "repetitions are decided by IDSource.ID alone")
 				}
 			}},
+		{Prop: "C05", ID: "C05.7", Engine: "SIBLING+ORDER+DOM", Floor: 1,
+			Desc:  "a sealed fraction is never pruned away from a search that its documents belong to: the occupancy map is built from every id of the fraction, with the bucket function that tests it (shared rule with C14.4 — a document that is found while its fraction is active must still be found after sealing)",
+			Check: func(c *Ctx) { occupancyMapComplete(c) }},
 		{Prop: "C05", ID: "C05.5", Engine: "ERRFLOW", Floor: 3,
 			Desc: "a fraction error fails the search inside a store: the error of fracSearch reaches searchDocsAsync's and SearchDocs' return",
 			Check: func(c *Ctx) {
